@@ -1,6 +1,6 @@
 //! Verification MODEL of the `indexmap` crate (see /verif/DESIGN.md §4.3).
 //!
-//! `IndexMap<K, V>` is an insertion-ordered `Vec<(K, V)>`; lookups are a linear scan using
+//! `IndexMap<K, V>` is an insertion-ordered sequence of `(K, V)`; lookups are a linear scan using
 //! [`Equivalent`]. Hashes are never computed. This is observationally equal to the real crate
 //! whenever `k1 == k2` implies `hash(k1) == hash(k2)` for every key/query type involved.
 #![allow(clippy::all)]
@@ -18,86 +18,295 @@ impl<Q: ?Sized, K: ?Sized> Equivalent<K> for Q where Q: Eq, K: Borrow<Q> {
 	fn equivalent(&self, key: &K) -> bool { PartialEq::eq(self, key.borrow()) }
 }
 
+// ---------------------------------------------------------------------------------------------
+// Storage. Natively a plain `Vec`; under Kani a fixed array of `Option<T>` slots (capacity 4):
+// a heap `Vec` buffer is an untyped byte array for CBMC, and every access at a symbolic index
+// (the length of a result map depends on the data) is lowered to byte-level muxes – 12 M SAT
+// variables for a one-entry map. A typed array of four slots is a handful of ite-muxes. A fifth
+// entry is a verification failure ("capacity exceeded"), never a silently dropped case.
+// ---------------------------------------------------------------------------------------------
+#[cfg(not(kani))]
+mod store {
+	pub struct Store<T>(Vec<T>);
+	pub type StoreIter<'a, T> = core::slice::Iter<'a, T>;
+	pub type StoreIterMut<'a, T> = core::slice::IterMut<'a, T>;
+	pub type StoreIntoIter<T> = std::vec::IntoIter<T>;
+	impl<T> Store<T> {
+		#[inline] pub fn new() -> Self { Store(Vec::new()) }
+		#[inline] pub fn with_capacity(n: usize) -> Self { Store(Vec::with_capacity(n)) }
+		#[inline] pub fn len(&self) -> usize { self.0.len() }
+		#[inline] pub fn push(&mut self, v: T) { self.0.push(v) }
+		#[inline] pub fn pop(&mut self) -> Option<T> { self.0.pop() }
+		#[inline] pub fn at(&self, i: usize) -> &T { &self.0[i] }
+		#[inline] pub fn at_mut(&mut self, i: usize) -> &mut T { &mut self.0[i] }
+		#[inline] pub fn get(&self, i: usize) -> Option<&T> { self.0.get(i) }
+		#[inline] pub fn get_mut(&mut self, i: usize) -> Option<&mut T> { self.0.get_mut(i) }
+		#[inline] pub fn clear(&mut self) { self.0.clear() }
+		#[inline] pub fn swap_remove(&mut self, i: usize) -> T { self.0.swap_remove(i) }
+		#[inline] pub fn remove(&mut self, i: usize) -> T { self.0.remove(i) }
+		#[inline] pub fn retain_mut<F: FnMut(&mut T) -> bool>(&mut self, f: F) { self.0.retain_mut(f) }
+		#[inline] pub fn sort_by<F: FnMut(&T, &T) -> core::cmp::Ordering>(&mut self, f: F) { self.0.sort_by(f) }
+		#[inline] pub fn reserve(&mut self, n: usize) { self.0.reserve(n) }
+		#[inline] pub fn iter(&self) -> StoreIter<'_, T> { self.0.iter() }
+		#[inline] pub fn iter_mut(&mut self) -> StoreIterMut<'_, T> { self.0.iter_mut() }
+		#[inline] pub fn into_iter(self) -> StoreIntoIter<T> { self.0.into_iter() }
+		#[inline] pub fn truncate(&mut self, n: usize) { self.0.truncate(n) }
+	}
+	impl<T: Clone> Clone for Store<T> { #[inline] fn clone(&self) -> Self { Store(self.0.clone()) } }
+}
+
+#[cfg(kani)]
+mod store {
+	pub const CAP: usize = 4;
+	pub struct Store<T> { slots: [Option<T>; CAP], len: usize }
+	pub struct StoreIter<'a, T> { s: &'a Store<T>, front: usize, back: usize }
+	pub struct StoreIterMut<'a, T> { it: core::slice::IterMut<'a, Option<T>> }
+	pub struct StoreIntoIter<T> { s: Store<T>, front: usize, back: usize }
+	impl<T> Store<T> {
+		#[inline] pub fn new() -> Self { Store { slots: [const { None }; CAP], len: 0 } }
+		#[inline] pub fn with_capacity(_n: usize) -> Self { Self::new() }
+		#[inline] pub fn len(&self) -> usize { self.len }
+		#[inline] pub fn push(&mut self, v: T) {
+			assert!(self.len < CAP, "VERIF-MODEL: indexmap model capacity (4 entries) exceeded");
+			self.slots[self.len] = Some(v);
+			self.len += 1;
+		}
+		#[inline] pub fn pop(&mut self) -> Option<T> { if self.len == 0 { None } else { self.len -= 1; self.slots[self.len].take() } }
+		#[inline] pub fn at(&self, i: usize) -> &T { assert!(i < self.len, "index out of bounds"); match &self.slots[i] { Some(v) => v, None => unreachable!() } }
+		#[inline] pub fn at_mut(&mut self, i: usize) -> &mut T { assert!(i < self.len, "index out of bounds"); match &mut self.slots[i] { Some(v) => v, None => unreachable!() } }
+		#[inline] pub fn get(&self, i: usize) -> Option<&T> { if i < self.len { self.slots[i].as_ref() } else { None } }
+		#[inline] pub fn get_mut(&mut self, i: usize) -> Option<&mut T> { if i < self.len { self.slots[i].as_mut() } else { None } }
+		#[inline] pub fn clear(&mut self) { while self.len > 0 { self.len -= 1; self.slots[self.len] = None; } }
+		#[inline] pub fn truncate(&mut self, n: usize) { while self.len > n { self.len -= 1; self.slots[self.len] = None; } }
+		#[inline] pub fn swap_remove(&mut self, i: usize) -> T {
+			assert!(i < self.len, "swap_remove index out of bounds");
+			let last = self.len - 1;
+			let v = self.slots[i].take();
+			if i != last { self.slots[i] = self.slots[last].take(); }
+			self.len = last;
+			match v { Some(v) => v, None => unreachable!() }
+		}
+		#[inline] pub fn remove(&mut self, i: usize) -> T {
+			assert!(i < self.len, "remove index out of bounds");
+			let v = self.slots[i].take();
+			let mut j = i;
+			while j + 1 < self.len { self.slots[j] = self.slots[j + 1].take(); j += 1; }
+			self.len -= 1;
+			match v { Some(v) => v, None => unreachable!() }
+		}
+		#[inline] pub fn retain_mut<F: FnMut(&mut T) -> bool>(&mut self, mut f: F) {
+			let mut w = 0;
+			let mut r = 0;
+			while r < self.len {
+				let keep = match &mut self.slots[r] { Some(v) => f(v), None => unreachable!() };
+				if keep { if w != r { self.slots[w] = self.slots[r].take(); } w += 1; } else { self.slots[r] = None; }
+				r += 1;
+			}
+			self.len = w;
+		}
+		/// Stable insertion sort.
+		#[inline] pub fn sort_by<F: FnMut(&T, &T) -> core::cmp::Ordering>(&mut self, mut f: F) {
+			let mut i = 1;
+			while i < self.len {
+				let mut j = i;
+				while j > 0 {
+					let gt = match (&self.slots[j - 1], &self.slots[j]) { (Some(a), Some(b)) => f(a, b) == core::cmp::Ordering::Greater, _ => unreachable!() };
+					if !gt { break; }
+					self.slots.swap(j - 1, j);
+					j -= 1;
+				}
+				i += 1;
+			}
+		}
+		#[inline] pub fn reserve(&mut self, _n: usize) {}
+		#[inline] pub fn iter(&self) -> StoreIter<'_, T> { StoreIter { s: self, front: 0, back: self.len } }
+		#[inline] pub fn iter_mut(&mut self) -> StoreIterMut<'_, T> { let n = self.len; StoreIterMut { it: self.slots[..n].iter_mut() } }
+		#[inline] pub fn into_iter(self) -> StoreIntoIter<T> { let back = self.len; StoreIntoIter { s: self, front: 0, back } }
+	}
+	impl<T: Clone> Clone for Store<T> {
+		#[inline] fn clone(&self) -> Self {
+			let mut n = Store::new();
+			let mut i = 0;
+			while i < self.len { n.push(self.at(i).clone()); i += 1; }
+			n
+		}
+	}
+	impl<'a, T> Clone for StoreIter<'a, T> { #[inline] fn clone(&self) -> Self { StoreIter { s: self.s, front: self.front, back: self.back } } }
+	impl<'a, T> Iterator for StoreIter<'a, T> {
+		type Item = &'a T;
+		#[inline] fn next(&mut self) -> Option<&'a T> { if self.front < self.back { let r = self.s.slots[self.front].as_ref(); self.front += 1; r } else { None } }
+		#[inline] fn size_hint(&self) -> (usize, Option<usize>) { let n = self.back - self.front; (n, Some(n)) }
+	}
+	impl<'a, T> DoubleEndedIterator for StoreIter<'a, T> {
+		#[inline] fn next_back(&mut self) -> Option<&'a T> { if self.front < self.back { self.back -= 1; self.s.slots[self.back].as_ref() } else { None } }
+	}
+	impl<'a, T> ExactSizeIterator for StoreIter<'a, T> {}
+	impl<'a, T> Iterator for StoreIterMut<'a, T> {
+		type Item = &'a mut T;
+		#[inline] fn next(&mut self) -> Option<&'a mut T> { match self.it.next() { Some(o) => o.as_mut(), None => None } }
+		#[inline] fn size_hint(&self) -> (usize, Option<usize>) { self.it.size_hint() }
+	}
+	impl<'a, T> DoubleEndedIterator for StoreIterMut<'a, T> {
+		#[inline] fn next_back(&mut self) -> Option<&'a mut T> { match self.it.next_back() { Some(o) => o.as_mut(), None => None } }
+	}
+	impl<'a, T> ExactSizeIterator for StoreIterMut<'a, T> {}
+	impl<T> Iterator for StoreIntoIter<T> {
+		type Item = T;
+		#[inline] fn next(&mut self) -> Option<T> { if self.front < self.back { let r = self.s.slots[self.front].take(); self.front += 1; r } else { None } }
+		#[inline] fn size_hint(&self) -> (usize, Option<usize>) { let n = self.back - self.front; (n, Some(n)) }
+	}
+	impl<T> DoubleEndedIterator for StoreIntoIter<T> {
+		#[inline] fn next_back(&mut self) -> Option<T> { if self.front < self.back { self.back -= 1; self.s.slots[self.back].take() } else { None } }
+	}
+	impl<T> ExactSizeIterator for StoreIntoIter<T> {}
+}
+use store::{Store, StoreIntoIter, StoreIter, StoreIterMut};
+
 pub mod map {
-	pub use super::{IndexMap, Entry, OccupiedEntry, VacantEntry};
-	pub type Iter<'a, K, V> = core::iter::Map<core::slice::Iter<'a, (K, V)>, fn(&'a (K, V)) -> (&'a K, &'a V)>;
+	pub use super::{IndexMap, Entry, OccupiedEntry, VacantEntry, Iter, IterMut, IntoIter};
 }
 pub mod set {
 	pub use super::IndexSet;
 }
 
 pub struct IndexMap<K, V, S = ()> {
-	entries: Vec<(K, V)>,
+	entries: Store<(K, V)>,
 	_s: PhantomData<S>,
 }
 
+pub struct Iter<'a, K, V>(StoreIter<'a, (K, V)>);
+pub struct IterMut<'a, K, V>(StoreIterMut<'a, (K, V)>);
+pub struct IntoIter<K, V>(StoreIntoIter<(K, V)>);
+impl<'a, K, V> Clone for Iter<'a, K, V> { #[inline] fn clone(&self) -> Self { Iter(self.0.clone()) } }
+impl<'a, K, V> Iterator for Iter<'a, K, V> {
+	type Item = (&'a K, &'a V);
+	#[inline] fn next(&mut self) -> Option<Self::Item> { match self.0.next() { Some(e) => Some((&e.0, &e.1)), None => None } }
+	#[inline] fn size_hint(&self) -> (usize, Option<usize>) { self.0.size_hint() }
+}
+impl<'a, K, V> DoubleEndedIterator for Iter<'a, K, V> {
+	#[inline] fn next_back(&mut self) -> Option<Self::Item> { match self.0.next_back() { Some(e) => Some((&e.0, &e.1)), None => None } }
+}
+impl<'a, K, V> ExactSizeIterator for Iter<'a, K, V> {}
+impl<'a, K, V> Iterator for IterMut<'a, K, V> {
+	type Item = (&'a K, &'a mut V);
+	#[inline] fn next(&mut self) -> Option<Self::Item> { match self.0.next() { Some(e) => Some((&e.0, &mut e.1)), None => None } }
+	#[inline] fn size_hint(&self) -> (usize, Option<usize>) { self.0.size_hint() }
+}
+impl<'a, K, V> DoubleEndedIterator for IterMut<'a, K, V> {
+	#[inline] fn next_back(&mut self) -> Option<Self::Item> { match self.0.next_back() { Some(e) => Some((&e.0, &mut e.1)), None => None } }
+}
+impl<'a, K, V> ExactSizeIterator for IterMut<'a, K, V> {}
+impl<K, V> Iterator for IntoIter<K, V> {
+	type Item = (K, V);
+	#[inline] fn next(&mut self) -> Option<(K, V)> { self.0.next() }
+	#[inline] fn size_hint(&self) -> (usize, Option<usize>) { self.0.size_hint() }
+}
+impl<K, V> DoubleEndedIterator for IntoIter<K, V> { #[inline] fn next_back(&mut self) -> Option<(K, V)> { self.0.next_back() } }
+impl<K, V> ExactSizeIterator for IntoIter<K, V> {}
+
 impl<K, V, S> IndexMap<K, V, S> {
 	#[inline] pub fn len(&self) -> usize { self.entries.len() }
-	#[inline] pub fn is_empty(&self) -> bool { self.entries.is_empty() }
-	#[inline] pub fn iter(&self) -> impl DoubleEndedIterator<Item = (&K, &V)> + ExactSizeIterator + Clone + '_ { self.entries.iter().map(|(k, v)| (k, v)) }
-	#[inline] pub fn iter_mut(&mut self) -> impl DoubleEndedIterator<Item = (&K, &mut V)> + ExactSizeIterator + '_ { self.entries.iter_mut().map(|(k, v)| (&*k, v)) }
-	#[inline] pub fn keys(&self) -> impl DoubleEndedIterator<Item = &K> + ExactSizeIterator + Clone + '_ { self.entries.iter().map(|(k, _)| k) }
-	#[inline] pub fn values(&self) -> impl DoubleEndedIterator<Item = &V> + ExactSizeIterator + Clone + '_ { self.entries.iter().map(|(_, v)| v) }
-	#[inline] pub fn values_mut(&mut self) -> impl DoubleEndedIterator<Item = &mut V> + ExactSizeIterator + '_ { self.entries.iter_mut().map(|(_, v)| v) }
+	#[inline] pub fn is_empty(&self) -> bool { self.entries.len() == 0 }
+	#[inline] pub fn iter(&self) -> Iter<'_, K, V> { Iter(self.entries.iter()) }
+	#[inline] pub fn iter_mut(&mut self) -> IterMut<'_, K, V> { IterMut(self.entries.iter_mut()) }
+	#[inline] pub fn keys(&self) -> impl DoubleEndedIterator<Item = &K> + ExactSizeIterator + Clone + '_ { self.iter().map(|(k, _)| k) }
+	#[inline] pub fn values(&self) -> impl DoubleEndedIterator<Item = &V> + ExactSizeIterator + Clone + '_ { self.iter().map(|(_, v)| v) }
+	#[inline] pub fn values_mut(&mut self) -> impl DoubleEndedIterator<Item = &mut V> + ExactSizeIterator + '_ { self.iter_mut().map(|(_, v)| v) }
 	#[inline] pub fn into_keys(self) -> impl DoubleEndedIterator<Item = K> + ExactSizeIterator { self.entries.into_iter().map(|(k, _)| k) }
 	#[inline] pub fn into_values(self) -> impl DoubleEndedIterator<Item = V> + ExactSizeIterator { self.entries.into_iter().map(|(_, v)| v) }
 	#[inline] pub fn clear(&mut self) { self.entries.clear() }
-	#[inline] pub fn get_index(&self, index: usize) -> Option<(&K, &V)> { self.entries.get(index).map(|(k, v)| (k, v)) }
-	#[inline] pub fn get_index_mut(&mut self, index: usize) -> Option<(&K, &mut V)> { self.entries.get_mut(index).map(|(k, v)| (&*k, v)) }
-	#[inline] pub fn first(&self) -> Option<(&K, &V)> { self.entries.first().map(|(k, v)| (k, v)) }
-	#[inline] pub fn last(&self) -> Option<(&K, &V)> { self.entries.last().map(|(k, v)| (k, v)) }
-	#[inline] pub fn first_mut(&mut self) -> Option<(&K, &mut V)> { self.entries.first_mut().map(|(k, v)| (&*k, v)) }
-	#[inline] pub fn last_mut(&mut self) -> Option<(&K, &mut V)> { self.entries.last_mut().map(|(k, v)| (&*k, v)) }
+	#[inline] pub fn get_index(&self, index: usize) -> Option<(&K, &V)> { match self.entries.get(index) { Some(e) => Some((&e.0, &e.1)), None => None } }
+	#[inline] pub fn get_index_mut(&mut self, index: usize) -> Option<(&K, &mut V)> { match self.entries.get_mut(index) { Some(e) => Some((&e.0, &mut e.1)), None => None } }
+	#[inline] pub fn first(&self) -> Option<(&K, &V)> { self.get_index(0) }
+	#[inline] pub fn last(&self) -> Option<(&K, &V)> { let n = self.entries.len(); if n == 0 { None } else { self.get_index(n - 1) } }
+	#[inline] pub fn first_mut(&mut self) -> Option<(&K, &mut V)> { self.get_index_mut(0) }
+	#[inline] pub fn last_mut(&mut self) -> Option<(&K, &mut V)> { let n = self.entries.len(); if n == 0 { None } else { self.get_index_mut(n - 1) } }
 	#[inline] pub fn pop(&mut self) -> Option<(K, V)> { self.entries.pop() }
-	#[inline] pub fn retain<F>(&mut self, mut keep: F) where F: FnMut(&K, &mut V) -> bool { self.entries.retain_mut(|(k, v)| keep(k, v)) }
-	#[inline] pub fn drain<R>(&mut self, range: R) -> std::vec::Drain<'_, (K, V)> where R: core::ops::RangeBounds<usize> { self.entries.drain(range) }
+	#[inline] pub fn retain<F>(&mut self, mut keep: F) where F: FnMut(&K, &mut V) -> bool { self.entries.retain_mut(|e| keep(&e.0, &mut e.1)) }
 	#[inline] pub fn reserve(&mut self, additional: usize) { self.entries.reserve(additional) }
+	#[inline] pub fn truncate(&mut self, len: usize) { self.entries.truncate(len) }
 	#[inline] pub fn sort_keys(&mut self) where K: Ord { self.entries.sort_by(|a, b| a.0.cmp(&b.0)) }
 	#[inline] pub fn sort_by<F>(&mut self, mut cmp: F) where F: FnMut(&K, &V, &K, &V) -> core::cmp::Ordering { self.entries.sort_by(|a, b| cmp(&a.0, &a.1, &b.0, &b.1)) }
-	#[inline] pub fn sort_unstable_keys(&mut self) where K: Ord { self.entries.sort_unstable_by(|a, b| a.0.cmp(&b.0)) }
+	#[inline] pub fn sort_unstable_keys(&mut self) where K: Ord { self.entries.sort_by(|a, b| a.0.cmp(&b.0)) }
 	#[inline] pub fn swap_remove_index(&mut self, index: usize) -> Option<(K, V)> { if index < self.entries.len() { Some(self.entries.swap_remove(index)) } else { None } }
 	#[inline] pub fn shift_remove_index(&mut self, index: usize) -> Option<(K, V)> { if index < self.entries.len() { Some(self.entries.remove(index)) } else { None } }
 }
 
 impl<K, V> IndexMap<K, V> {
-	#[inline] pub fn new() -> Self { IndexMap { entries: Vec::new(), _s: PhantomData } }
-	#[inline] pub fn with_capacity(n: usize) -> Self { IndexMap { entries: Vec::with_capacity(n), _s: PhantomData } }
+	#[inline] pub fn new() -> Self { IndexMap { entries: Store::new(), _s: PhantomData } }
+	#[inline] pub fn with_capacity(n: usize) -> Self { IndexMap { entries: Store::with_capacity(n), _s: PhantomData } }
 }
 
+// NOTE: every lookup-based operation acts *inside* the scan loop, at the loop counter. After
+// unrolling the counter is a constant in each iteration, so the symbolic executor sees accesses
+// at constant indices instead of one access at a symbolic index.
 impl<K, V, S> IndexMap<K, V, S> {
 	#[inline]
 	pub fn get_index_of<Q>(&self, key: &Q) -> Option<usize> where Q: ?Sized + Equivalent<K> {
 		let mut i = 0;
 		while i < self.entries.len() {
-			if key.equivalent(&self.entries[i].0) { return Some(i); }
+			if key.equivalent(&self.entries.at(i).0) { return Some(i); }
 			i += 1;
 		}
 		None
 	}
 	#[inline] pub fn contains_key<Q>(&self, key: &Q) -> bool where Q: ?Sized + Equivalent<K> { self.get_index_of(key).is_some() }
 	#[inline] pub fn get<Q>(&self, key: &Q) -> Option<&V> where Q: ?Sized + Equivalent<K> {
-		match self.get_index_of(key) { Some(i) => Some(&self.entries[i].1), None => None }
+		let mut i = 0;
+		while i < self.entries.len() {
+			let e = self.entries.at(i);
+			if key.equivalent(&e.0) { return Some(&e.1); }
+			i += 1;
+		}
+		None
 	}
 	#[inline] pub fn get_key_value<Q>(&self, key: &Q) -> Option<(&K, &V)> where Q: ?Sized + Equivalent<K> {
-		match self.get_index_of(key) { Some(i) => Some((&self.entries[i].0, &self.entries[i].1)), None => None }
+		let mut i = 0;
+		while i < self.entries.len() {
+			let e = self.entries.at(i);
+			if key.equivalent(&e.0) { return Some((&e.0, &e.1)); }
+			i += 1;
+		}
+		None
 	}
 	#[inline] pub fn get_full<Q>(&self, key: &Q) -> Option<(usize, &K, &V)> where Q: ?Sized + Equivalent<K> {
-		match self.get_index_of(key) { Some(i) => Some((i, &self.entries[i].0, &self.entries[i].1)), None => None }
+		let mut i = 0;
+		while i < self.entries.len() {
+			let e = self.entries.at(i);
+			if key.equivalent(&e.0) { return Some((i, &e.0, &e.1)); }
+			i += 1;
+		}
+		None
 	}
 	#[inline] pub fn get_mut<Q>(&mut self, key: &Q) -> Option<&mut V> where Q: ?Sized + Equivalent<K> {
-		match self.get_index_of(key) { Some(i) => Some(&mut self.entries[i].1), None => None }
-	}
-	#[inline] pub fn swap_remove<Q>(&mut self, key: &Q) -> Option<V> where Q: ?Sized + Equivalent<K> {
-		match self.get_index_of(key) { Some(i) => Some(self.entries.swap_remove(i).1), None => None }
+		let mut i = 0;
+		while i < self.entries.len() {
+			if key.equivalent(&self.entries.at(i).0) { return Some(&mut self.entries.at_mut(i).1); }
+			i += 1;
+		}
+		None
 	}
 	#[inline] pub fn swap_remove_entry<Q>(&mut self, key: &Q) -> Option<(K, V)> where Q: ?Sized + Equivalent<K> {
-		match self.get_index_of(key) { Some(i) => Some(self.entries.swap_remove(i)), None => None }
+		let mut i = 0;
+		while i < self.entries.len() {
+			if key.equivalent(&self.entries.at(i).0) { return Some(self.entries.swap_remove(i)); }
+			i += 1;
+		}
+		None
 	}
-	#[inline] pub fn shift_remove<Q>(&mut self, key: &Q) -> Option<V> where Q: ?Sized + Equivalent<K> {
-		match self.get_index_of(key) { Some(i) => Some(self.entries.remove(i).1), None => None }
+	#[inline] pub fn swap_remove<Q>(&mut self, key: &Q) -> Option<V> where Q: ?Sized + Equivalent<K> {
+		match self.swap_remove_entry(key) { Some((_, v)) => Some(v), None => None }
 	}
 	#[inline] pub fn shift_remove_entry<Q>(&mut self, key: &Q) -> Option<(K, V)> where Q: ?Sized + Equivalent<K> {
-		match self.get_index_of(key) { Some(i) => Some(self.entries.remove(i)), None => None }
+		let mut i = 0;
+		while i < self.entries.len() {
+			if key.equivalent(&self.entries.at(i).0) { return Some(self.entries.remove(i)); }
+			i += 1;
+		}
+		None
+	}
+	#[inline] pub fn shift_remove<Q>(&mut self, key: &Q) -> Option<V> where Q: ?Sized + Equivalent<K> {
+		match self.shift_remove_entry(key) { Some((_, v)) => Some(v), None => None }
 	}
 	#[deprecated] #[inline] pub fn remove<Q>(&mut self, key: &Q) -> Option<V> where Q: ?Sized + Equivalent<K> { self.swap_remove(key) }
 }
@@ -105,18 +314,23 @@ impl<K, V, S> IndexMap<K, V, S> {
 impl<K: Eq, V, S> IndexMap<K, V, S> {
 	#[inline]
 	pub fn insert_full(&mut self, key: K, value: V) -> (usize, Option<V>) {
-		match self.get_index_of(&key) {
-			Some(i) => (i, Some(core::mem::replace(&mut self.entries[i].1, value))),
-			None => { self.entries.push((key, value)); (self.entries.len() - 1, None) }
+		let mut i = 0;
+		while i < self.entries.len() {
+			if self.entries.at(i).0 == key { return (i, Some(core::mem::replace(&mut self.entries.at_mut(i).1, value))); }
+			i += 1;
 		}
+		self.entries.push((key, value));
+		(self.entries.len() - 1, None)
 	}
 	#[inline] pub fn insert(&mut self, key: K, value: V) -> Option<V> { self.insert_full(key, value).1 }
 	#[inline]
 	pub fn entry(&mut self, key: K) -> Entry<'_, K, V> {
-		match self.get_index_of(&key) {
-			Some(index) => Entry::Occupied(OccupiedEntry { entries: &mut self.entries, index, _key: key }),
-			None => Entry::Vacant(VacantEntry { entries: &mut self.entries, key }),
+		let mut index = 0;
+		while index < self.entries.len() {
+			if self.entries.at(index).0 == key { return Entry::Occupied(OccupiedEntry { entries: &mut self.entries, index, _key: key }); }
+			index += 1;
 		}
+		Entry::Vacant(VacantEntry { entries: &mut self.entries, key })
 	}
 }
 
@@ -124,8 +338,8 @@ pub enum Entry<'a, K, V> {
 	Occupied(OccupiedEntry<'a, K, V>),
 	Vacant(VacantEntry<'a, K, V>),
 }
-pub struct OccupiedEntry<'a, K, V> { entries: &'a mut Vec<(K, V)>, index: usize, _key: K }
-pub struct VacantEntry<'a, K, V> { entries: &'a mut Vec<(K, V)>, key: K }
+pub struct OccupiedEntry<'a, K, V> { entries: &'a mut Store<(K, V)>, index: usize, _key: K }
+pub struct VacantEntry<'a, K, V> { entries: &'a mut Store<(K, V)>, key: K }
 
 impl<'a, K, V> Entry<'a, K, V> {
 	#[inline] pub fn or_insert(self, default: V) -> &'a mut V { match self { Entry::Occupied(e) => e.into_mut(), Entry::Vacant(e) => e.insert(default) } }
@@ -136,12 +350,12 @@ impl<'a, K, V> Entry<'a, K, V> {
 	#[inline] pub fn and_modify<F: FnOnce(&mut V)>(mut self, f: F) -> Self { if let Entry::Occupied(e) = &mut self { f(e.get_mut()); } self }
 }
 impl<'a, K, V> OccupiedEntry<'a, K, V> {
-	#[inline] pub fn key(&self) -> &K { &self.entries[self.index].0 }
+	#[inline] pub fn key(&self) -> &K { &self.entries.at(self.index).0 }
 	#[inline] pub fn index(&self) -> usize { self.index }
-	#[inline] pub fn get(&self) -> &V { &self.entries[self.index].1 }
-	#[inline] pub fn get_mut(&mut self) -> &mut V { &mut self.entries[self.index].1 }
-	#[inline] pub fn into_mut(self) -> &'a mut V { &mut self.entries[self.index].1 }
-	#[inline] pub fn insert(&mut self, value: V) -> V { core::mem::replace(&mut self.entries[self.index].1, value) }
+	#[inline] pub fn get(&self) -> &V { &self.entries.at(self.index).1 }
+	#[inline] pub fn get_mut(&mut self) -> &mut V { &mut self.entries.at_mut(self.index).1 }
+	#[inline] pub fn into_mut(self) -> &'a mut V { &mut self.entries.at_mut(self.index).1 }
+	#[inline] pub fn insert(&mut self, value: V) -> V { core::mem::replace(&mut self.entries.at_mut(self.index).1, value) }
 	#[inline] pub fn swap_remove(self) -> V { self.entries.swap_remove(self.index).1 }
 	#[inline] pub fn shift_remove(self) -> V { self.entries.remove(self.index).1 }
 	#[inline] pub fn swap_remove_entry(self) -> (K, V) { self.entries.swap_remove(self.index) }
@@ -154,7 +368,7 @@ impl<'a, K, V> VacantEntry<'a, K, V> {
 	#[inline] pub fn insert(self, value: V) -> &'a mut V {
 		self.entries.push((self.key, value));
 		let n = self.entries.len() - 1;
-		&mut self.entries[n].1
+		&mut self.entries.at_mut(n).1
 	}
 }
 impl<K: Debug, V: Debug> Debug for Entry<'_, K, V> {
@@ -168,19 +382,19 @@ impl<K: Debug, V: Debug> Debug for VacantEntry<'_, K, V> {
 }
 
 impl<K, V, S> Default for IndexMap<K, V, S> {
-	#[inline] fn default() -> Self { IndexMap { entries: Vec::new(), _s: PhantomData } }
+	#[inline] fn default() -> Self { IndexMap { entries: Store::new(), _s: PhantomData } }
 }
 impl<K: Clone, V: Clone, S> Clone for IndexMap<K, V, S> {
 	#[inline] fn clone(&self) -> Self { IndexMap { entries: self.entries.clone(), _s: PhantomData } }
 }
 impl<K: Debug, V: Debug, S> Debug for IndexMap<K, V, S> {
-	fn fmt(&self, f: &mut fmt::Formatter<'_>) -> fmt::Result { f.debug_map().entries(self.entries.iter().map(|(k, v)| (k, v))).finish() }
+	fn fmt(&self, f: &mut fmt::Formatter<'_>) -> fmt::Result { f.debug_map().entries(self.iter()).finish() }
 }
 /// Like the real crate: equal iff same length and every key of `self` maps to an equal value in `other` (order-insensitive).
 impl<K: Eq, V1, V2, S1, S2> PartialEq<IndexMap<K, V2, S2>> for IndexMap<K, V1, S1> where V1: PartialEq<V2> {
 	fn eq(&self, other: &IndexMap<K, V2, S2>) -> bool {
 		if self.len() != other.len() { return false; }
-		self.entries.iter().all(|(k, v)| other.get(k).map_or(false, |w| *v == *w))
+		self.iter().all(|(k, v)| other.get(k).map_or(false, |w| *v == *w))
 	}
 }
 impl<K: Eq, V: Eq, S> Eq for IndexMap<K, V, S> {}
@@ -196,18 +410,18 @@ impl<K: Eq, V, const N: usize> From<[(K, V); N]> for IndexMap<K, V> {
 }
 impl<K, V, S> IntoIterator for IndexMap<K, V, S> {
 	type Item = (K, V);
-	type IntoIter = std::vec::IntoIter<(K, V)>;
-	#[inline] fn into_iter(self) -> Self::IntoIter { self.entries.into_iter() }
+	type IntoIter = IntoIter<K, V>;
+	#[inline] fn into_iter(self) -> Self::IntoIter { IntoIter(self.entries.into_iter()) }
 }
 impl<'a, K, V, S> IntoIterator for &'a IndexMap<K, V, S> {
 	type Item = (&'a K, &'a V);
-	type IntoIter = map::Iter<'a, K, V>;
-	#[inline] fn into_iter(self) -> Self::IntoIter { fn f<'a, K, V>(e: &'a (K, V)) -> (&'a K, &'a V) { (&e.0, &e.1) } self.entries.iter().map(f as fn(&'a (K, V)) -> (&'a K, &'a V)) }
+	type IntoIter = Iter<'a, K, V>;
+	#[inline] fn into_iter(self) -> Self::IntoIter { self.iter() }
 }
 impl<'a, K, V, S> IntoIterator for &'a mut IndexMap<K, V, S> {
 	type Item = (&'a K, &'a mut V);
-	type IntoIter = core::iter::Map<core::slice::IterMut<'a, (K, V)>, fn(&'a mut (K, V)) -> (&'a K, &'a mut V)>;
-	#[inline] fn into_iter(self) -> Self::IntoIter { fn f<'a, K, V>(e: &'a mut (K, V)) -> (&'a K, &'a mut V) { (&e.0, &mut e.1) } self.entries.iter_mut().map(f as fn(&'a mut (K, V)) -> (&'a K, &'a mut V)) }
+	type IntoIter = IterMut<'a, K, V>;
+	#[inline] fn into_iter(self) -> Self::IntoIter { self.iter_mut() }
 }
 impl<K, V, Q: ?Sized, S> Index<&Q> for IndexMap<K, V, S> where Q: Equivalent<K> {
 	type Output = V;
@@ -218,61 +432,94 @@ impl<K, V, Q: ?Sized, S> IndexMut<&Q> for IndexMap<K, V, S> where Q: Equivalent<
 }
 impl<K, V, S> Index<usize> for IndexMap<K, V, S> {
 	type Output = V;
-	fn index(&self, index: usize) -> &V { &self.entries[index].1 }
+	fn index(&self, index: usize) -> &V { &self.entries.at(index).1 }
 }
 impl<K, V, S> IndexMut<usize> for IndexMap<K, V, S> {
-	fn index_mut(&mut self, index: usize) -> &mut V { &mut self.entries[index].1 }
+	fn index_mut(&mut self, index: usize) -> &mut V { &mut self.entries.at_mut(index).1 }
 }
 
 // ---------------------------------------------------------------------------------------------
 
 pub struct IndexSet<T, S = ()> {
-	entries: Vec<T>,
+	entries: Store<T>,
 	_s: PhantomData<S>,
 }
 impl<T> IndexSet<T> {
-	#[inline] pub fn new() -> Self { IndexSet { entries: Vec::new(), _s: PhantomData } }
-	#[inline] pub fn with_capacity(n: usize) -> Self { IndexSet { entries: Vec::with_capacity(n), _s: PhantomData } }
+	#[inline] pub fn new() -> Self { IndexSet { entries: Store::new(), _s: PhantomData } }
+	#[inline] pub fn with_capacity(n: usize) -> Self { IndexSet { entries: Store::with_capacity(n), _s: PhantomData } }
 }
 impl<T, S> IndexSet<T, S> {
 	#[inline] pub fn len(&self) -> usize { self.entries.len() }
-	#[inline] pub fn is_empty(&self) -> bool { self.entries.is_empty() }
-	#[inline] pub fn iter(&self) -> core::slice::Iter<'_, T> { self.entries.iter() }
+	#[inline] pub fn is_empty(&self) -> bool { self.entries.len() == 0 }
+	#[inline] pub fn iter(&self) -> StoreIter<'_, T> { self.entries.iter() }
 	#[inline] pub fn get_index(&self, index: usize) -> Option<&T> { self.entries.get(index) }
-	#[inline] pub fn first(&self) -> Option<&T> { self.entries.first() }
-	#[inline] pub fn last(&self) -> Option<&T> { self.entries.last() }
+	#[inline] pub fn first(&self) -> Option<&T> { self.entries.get(0) }
+	#[inline] pub fn last(&self) -> Option<&T> { let n = self.entries.len(); if n == 0 { None } else { self.entries.get(n - 1) } }
 	#[inline] pub fn pop(&mut self) -> Option<T> { self.entries.pop() }
 	#[inline] pub fn clear(&mut self) { self.entries.clear() }
-	#[inline] pub fn retain<F>(&mut self, keep: F) where F: FnMut(&T) -> bool { self.entries.retain(keep) }
-	#[inline] pub fn sort(&mut self) where T: Ord { self.entries.sort() }
-	#[inline] pub fn as_slice(&self) -> &[T] { &self.entries }
+	#[inline] pub fn retain<F>(&mut self, mut keep: F) where F: FnMut(&T) -> bool { self.entries.retain_mut(|e| keep(e)) }
+	#[inline] pub fn sort(&mut self) where T: Ord { self.entries.sort_by(|a, b| a.cmp(b)) }
 	#[inline]
 	pub fn get_index_of<Q>(&self, value: &Q) -> Option<usize> where Q: ?Sized + Equivalent<T> {
 		let mut i = 0;
 		while i < self.entries.len() {
-			if value.equivalent(&self.entries[i]) { return Some(i); }
+			if value.equivalent(self.entries.at(i)) { return Some(i); }
 			i += 1;
 		}
 		None
 	}
 	#[inline] pub fn contains<Q>(&self, value: &Q) -> bool where Q: ?Sized + Equivalent<T> { self.get_index_of(value).is_some() }
-	#[inline] pub fn get<Q>(&self, value: &Q) -> Option<&T> where Q: ?Sized + Equivalent<T> { match self.get_index_of(value) { Some(i) => Some(&self.entries[i]), None => None } }
-	#[inline] pub fn get_full<Q>(&self, value: &Q) -> Option<(usize, &T)> where Q: ?Sized + Equivalent<T> { match self.get_index_of(value) { Some(i) => Some((i, &self.entries[i])), None => None } }
-	#[inline] pub fn swap_remove<Q>(&mut self, value: &Q) -> bool where Q: ?Sized + Equivalent<T> { match self.get_index_of(value) { Some(i) => { self.entries.swap_remove(i); true }, None => false } }
-	#[inline] pub fn shift_remove<Q>(&mut self, value: &Q) -> bool where Q: ?Sized + Equivalent<T> { match self.get_index_of(value) { Some(i) => { self.entries.remove(i); true }, None => false } }
-	#[inline] pub fn swap_take<Q>(&mut self, value: &Q) -> Option<T> where Q: ?Sized + Equivalent<T> { match self.get_index_of(value) { Some(i) => Some(self.entries.swap_remove(i)), None => None } }
+	#[inline] pub fn get<Q>(&self, value: &Q) -> Option<&T> where Q: ?Sized + Equivalent<T> {
+		let mut i = 0;
+		while i < self.entries.len() {
+			let e = self.entries.at(i);
+			if value.equivalent(e) { return Some(e); }
+			i += 1;
+		}
+		None
+	}
+	#[inline] pub fn get_full<Q>(&self, value: &Q) -> Option<(usize, &T)> where Q: ?Sized + Equivalent<T> {
+		let mut i = 0;
+		while i < self.entries.len() {
+			let e = self.entries.at(i);
+			if value.equivalent(e) { return Some((i, e)); }
+			i += 1;
+		}
+		None
+	}
+	#[inline] pub fn swap_take<Q>(&mut self, value: &Q) -> Option<T> where Q: ?Sized + Equivalent<T> {
+		let mut i = 0;
+		while i < self.entries.len() {
+			if value.equivalent(self.entries.at(i)) { return Some(self.entries.swap_remove(i)); }
+			i += 1;
+		}
+		None
+	}
+	#[inline] pub fn shift_take<Q>(&mut self, value: &Q) -> Option<T> where Q: ?Sized + Equivalent<T> {
+		let mut i = 0;
+		while i < self.entries.len() {
+			if value.equivalent(self.entries.at(i)) { return Some(self.entries.remove(i)); }
+			i += 1;
+		}
+		None
+	}
+	#[inline] pub fn swap_remove<Q>(&mut self, value: &Q) -> bool where Q: ?Sized + Equivalent<T> { self.swap_take(value).is_some() }
+	#[inline] pub fn shift_remove<Q>(&mut self, value: &Q) -> bool where Q: ?Sized + Equivalent<T> { self.shift_take(value).is_some() }
 }
 impl<T: Eq, S> IndexSet<T, S> {
 	#[inline]
 	pub fn insert_full(&mut self, value: T) -> (usize, bool) {
-		match self.get_index_of(&value) {
-			Some(i) => (i, false),
-			None => { self.entries.push(value); (self.entries.len() - 1, true) }
+		let mut i = 0;
+		while i < self.entries.len() {
+			if *self.entries.at(i) == value { return (i, false); }
+			i += 1;
 		}
+		self.entries.push(value);
+		(self.entries.len() - 1, true)
 	}
 	#[inline] pub fn insert(&mut self, value: T) -> bool { self.insert_full(value).1 }
 }
-impl<T, S> Default for IndexSet<T, S> { #[inline] fn default() -> Self { IndexSet { entries: Vec::new(), _s: PhantomData } } }
+impl<T, S> Default for IndexSet<T, S> { #[inline] fn default() -> Self { IndexSet { entries: Store::new(), _s: PhantomData } } }
 impl<T: Clone, S> Clone for IndexSet<T, S> { #[inline] fn clone(&self) -> Self { IndexSet { entries: self.entries.clone(), _s: PhantomData } } }
 impl<T: Debug, S> Debug for IndexSet<T, S> { fn fmt(&self, f: &mut fmt::Formatter<'_>) -> fmt::Result { f.debug_set().entries(self.entries.iter()).finish() } }
 impl<T: Eq, S1, S2> PartialEq<IndexSet<T, S2>> for IndexSet<T, S1> {
@@ -282,6 +529,6 @@ impl<T: Eq, S> Eq for IndexSet<T, S> {}
 impl<T: Eq, S> Extend<T> for IndexSet<T, S> { #[inline] fn extend<I: IntoIterator<Item = T>>(&mut self, iter: I) { for v in iter { self.insert(v); } } }
 impl<T: Eq, S> FromIterator<T> for IndexSet<T, S> { #[inline] fn from_iter<I: IntoIterator<Item = T>>(iter: I) -> Self { let mut s = IndexSet::default(); s.extend(iter); s } }
 impl<T: Eq, const N: usize> From<[T; N]> for IndexSet<T> { fn from(arr: [T; N]) -> Self { arr.into_iter().collect() } }
-impl<T, S> IntoIterator for IndexSet<T, S> { type Item = T; type IntoIter = std::vec::IntoIter<T>; #[inline] fn into_iter(self) -> Self::IntoIter { self.entries.into_iter() } }
-impl<'a, T, S> IntoIterator for &'a IndexSet<T, S> { type Item = &'a T; type IntoIter = core::slice::Iter<'a, T>; #[inline] fn into_iter(self) -> Self::IntoIter { self.entries.iter() } }
-impl<T, S> Index<usize> for IndexSet<T, S> { type Output = T; fn index(&self, index: usize) -> &T { &self.entries[index] } }
+impl<T, S> IntoIterator for IndexSet<T, S> { type Item = T; type IntoIter = StoreIntoIter<T>; #[inline] fn into_iter(self) -> Self::IntoIter { self.entries.into_iter() } }
+impl<'a, T, S> IntoIterator for &'a IndexSet<T, S> { type Item = &'a T; type IntoIter = StoreIter<'a, T>; #[inline] fn into_iter(self) -> Self::IntoIter { self.entries.iter() } }
+impl<T, S> Index<usize> for IndexSet<T, S> { type Output = T; fn index(&self, index: usize) -> &T { self.entries.at(index) } }
